@@ -95,11 +95,12 @@ pub proof fn lemma_typed_prefix_entries(h: Header, k: int)
     }
 }
 /// in-memory headers for which the flat round trip is stated: what decoding produces, minus counter signatures
-pub open spec fn hdr_mem_ok_flat(h: Header) -> bool {
+pub open spec fn hdr_mem_ok_flat(h: Header) -> bool { hdr_mem_ok(h) && h.counter_signatures@.len() == 0 }
+/// the same conditions at one level, saying nothing about the counter signatures
+pub open spec fn hdr_mem_ok(h: Header) -> bool {
     (h.alg matches Some(a) ==> wf_regp(a))
     && (h.content_type matches Some(crate::RegisteredLabel::Text(t)) ==> ct_text_ok(t@))
     && !(h.iv@.len() > 0 && h.partial_iv@.len() > 0)
-    && h.counter_signatures@.len() == 0
     && (forall |i: int, j: int| 0 <= i < j < h.rest@.len() ==> (#[trigger] h.rest@[i]).0 != (#[trigger] h.rest@[j]).0)
     && (forall |i: int| 0 <= i < h.rest@.len() ==> !is_typed_hdr_label((#[trigger] h.rest@[i]).0))
 }
@@ -111,10 +112,10 @@ pub open spec fn hdr_same(a: Header, b: Header) -> bool {
 pub open spec fn tlen(h: Header) -> int { hdr_typed_prefix(h, 7).len() as int }
 /// entry i of the re-encoded map, seen by the decoder
 proof fn lemma_encoded_pair(h: Header, v1: Value, d: nat, i: int)
-    requires hdr_mem_ok_flat(h), vv(v1) == hdr_cv(h), 0 <= i < map_of(v1).len(),
+    requires hdr_mem_ok(h), vv(v1) == hdr_cv(h), 0 <= i < map_of(v1).len(),
     ensures
         v1 is Map, map_of(v1).len() == tlen(h) + h.rest@.len(),
-        hdr_pair_ok(map_of(v1)[i].0, map_of(v1)[i].1, d),
+        label_of(map_of(v1)[i].0) == Some(Label::Int(7)) || hdr_pair_ok(map_of(v1)[i].0, map_of(v1)[i].1, d),
         i < tlen(h) ==> (label_of(map_of(v1)[i].0) matches Some(Label::Int(n)) && 1 <= n <= 7 && tp(h, n as int) && vv(map_of(v1)[i].1) == hdr_typed_val(h, n as int)
                          && hdr_typed_prefix(h, 7)[i].0 == CV::Int(n as int)),
         i >= tlen(h) ==> (label_of(map_of(v1)[i].0) == Some(h.rest@[i - tlen(h)].0) && map_of(v1)[i].1 == h.rest@[i - tlen(h)].1),
@@ -159,7 +160,7 @@ proof fn lemma_encoded_len(h: Header, v1: Value)
 }
 /// a present typed field sits at some typed position of the re-encoded map
 proof fn lemma_encoded_typed_index(h: Header, v1: Value, d: nat, n: int) -> (i: int)
-    requires hdr_mem_ok_flat(h), vv(v1) == hdr_cv(h), 1 <= n <= 7, tp(h, n),
+    requires hdr_mem_ok(h), vv(v1) == hdr_cv(h), 1 <= n <= 7, tp(h, n),
     ensures 0 <= i < tlen(h), i < map_of(v1).len(), label_of(map_of(v1)[i].0) == Some(Label::Int(n as i64)), vv(map_of(v1)[i].1) == hdr_typed_val(h, n),
 {
     lemma_typed_prefix_entries(h, 7);
@@ -172,7 +173,7 @@ proof fn lemma_encoded_typed_index(h: Header, v1: Value, d: nat, n: int) -> (i: 
     i
 }
 proof fn lemma_encoded_labels_distinct(h: Header, v1: Value, d: nat)
-    requires hdr_mem_ok_flat(h), vv(v1) == hdr_cv(h),
+    requires hdr_mem_ok(h), vv(v1) == hdr_cv(h),
     ensures hdr_labels_distinct(map_of(v1)),
 {
     reveal(hdr_labels_distinct);
@@ -187,7 +188,7 @@ proof fn lemma_encoded_labels_distinct(h: Header, v1: Value, d: nat)
     }
 }
 proof fn lemma_encoded_presence(h: Header, v1: Value, d: nat, n: int)
-    requires hdr_mem_ok_flat(h), vv(v1) == hdr_cv(h), 1 <= n <= 7,
+    requires hdr_mem_ok(h), vv(v1) == hdr_cv(h), 1 <= n <= 7,
     ensures has_label(map_of(v1), map_of(v1).len() as int, Label::Int(n as i64)) <==> tp(h, n),
 {
     let m = map_of(v1); let tl = tlen(h);
@@ -200,7 +201,7 @@ proof fn lemma_encoded_presence(h: Header, v1: Value, d: nat, n: int)
 }
 /// the extras of the re-encoded map are exactly the header's extras, in order
 proof fn lemma_rest_of_encoded(h: Header, v1: Value, d: nat, n: int)
-    requires hdr_mem_ok_flat(h), vv(v1) == hdr_cv(h), 0 <= n <= map_of(v1).len(),
+    requires hdr_mem_ok(h), vv(v1) == hdr_cv(h), 0 <= n <= map_of(v1).len(),
     ensures
         n <= tlen(h) ==> rest_of(map_of(v1).subrange(0, n)) == Seq::<(Label, Value)>::empty(),
         n >= tlen(h) ==> rest_of(map_of(v1).subrange(0, n)) == h.rest@.subrange(0, n - tlen(h)),
@@ -276,6 +277,10 @@ pub open spec fn no_csig(v: Value) -> bool { !has_label(map_of(v), map_of(v).len
 pub proof fn lemma_decoded_header_mem_ok_flat(v: Value, d: nat, h: Header)
     requires hdr_ok(v, d), hdr_res(v, d, h), no_csig(v),
     ensures hdr_mem_ok_flat(h),
+{ lemma_decoded_header_mem_ok(v, d, h); }
+pub proof fn lemma_decoded_header_mem_ok(v: Value, d: nat, h: Header)
+    requires hdr_ok(v, d), hdr_res(v, d, h),
+    ensures hdr_mem_ok(h),
 {
     reveal(hdr_flat_ok);
     let m = map_of(v);
@@ -289,6 +294,11 @@ pub proof fn lemma_decoded_header_mem_ok_flat(v: Value, d: nat, h: Header)
 pub proof fn lemma_hdr_res_deterministic_flat(v: Value, d: nat, h1: Header, h2: Header)
     requires hdr_res(v, d, h1), hdr_res(v, d, h2), no_csig(v),
     ensures hdr_same(h1, h2),
+{ lemma_hdr_res_deterministic_level(v, d, h1, h2); }
+/// one level of it, whatever the counter signatures
+pub proof fn lemma_hdr_res_deterministic_level(v: Value, d: nat, h1: Header, h2: Header)
+    requires hdr_res(v, d, h1), hdr_res(v, d, h2),
+    ensures hdr_same(h1, h2) || (h1.counter_signatures@.len() != h2.counter_signatures@.len() && has_label(map_of(v), map_of(v).len() as int, Label::Int(7))),
 {
     reveal(hdr_flat_ok);
     let m = map_of(v);
@@ -307,7 +317,7 @@ pub proof fn lemma_hdr_res_deterministic_flat(v: Value, d: nat, h1: Header, h2: 
 }
 /// headers with equal views encode to the same data-model value
 proof fn lemma_prefix_same(a: Header, b: Header, k: int)
-    requires hdr_same(a, b), a.counter_signatures@.len() == 0, 0 <= k <= 7,
+    requires hdr_same(a, b), a.counter_signatures@.len() == 0 || csigs_cv(a) == csigs_cv(b), 0 <= k <= 7,
     ensures hdr_typed_prefix(a, k) == hdr_typed_prefix(b, k),
     decreases k
 {
@@ -320,7 +330,7 @@ proof fn lemma_prefix_same(a: Header, b: Header, k: int)
     }
 }
 pub proof fn lemma_hdr_cv_same(a: Header, b: Header)
-    requires hdr_same(a, b), a.counter_signatures@.len() == 0,
+    requires hdr_same(a, b), a.counter_signatures@.len() == 0 || csigs_cv(a) == csigs_cv(b),
     ensures hdr_cv(a) == hdr_cv(b),
 {
     lemma_prefix_same(a, b, 7);
@@ -337,6 +347,208 @@ pub proof fn lemma_header_fixed_point_flat(v: Value, d: nat, h: Header, v1: Valu
     lemma_header_reencoding_accepted(h, v1, d);
     lemma_header_reencoding_same(h, v1, d, h1);
     lemma_hdr_cv_same(h1, h);
+}
+// ---- the same, at every nesting level (counter signatures, their protected and unprotected headers, and so on)
+/// equality of decoded values "up to Vec identity": field views equal at every level, retained protected bytes included
+pub open spec fn hdr_eqv(a: Header, b: Header) -> bool
+    decreases a, 1nat
+{
+    hdr_same(a, b) && forall |i: int| 0 <= i < a.counter_signatures@.len() ==> sig_eqv(#[trigger] a.counter_signatures@[i], b.counter_signatures@[i])
+}
+pub open spec fn sig_eqv(a: CoseSignature, b: CoseSignature) -> bool
+    decreases a, 1nat
+{ prot_eqv(a.protected, b.protected) && hdr_eqv(a.unprotected, b.unprotected) && a.signature@ == b.signature@ }
+pub open spec fn prot_eqv(a: ProtectedHeader, b: ProtectedHeader) -> bool
+    decreases a, 2nat
+{ a.original_data is Some && b.original_data is Some && a.original_data->0@ == b.original_data->0@ && hdr_eqv(a.header, b.header) }
+/// the flat conditions of every entry of the re-encoded map, proved directly for the SAME header
+proof fn lemma_encoded_flat_ok(h: Header, v1: Value, d: nat)
+    requires hdr_mem_ok(h), vv(v1) == hdr_cv(h),
+    ensures hdr_flat_ok(h, map_of(v1), map_of(v1).len() as int),
+{
+    broadcast use axiom_vv_injective;
+    let m = map_of(v1);
+    reveal(hdr_flat_ok);
+    lemma_rest_of_encoded(h, v1, d, m.len() as int);
+    lemma_encoded_len(h, v1);
+    assert(h.rest@.subrange(0, h.rest@.len() as int) =~= h.rest@);
+    lemma_encoded_presence(h, v1, d, 1); lemma_encoded_presence(h, v1, d, 2); lemma_encoded_presence(h, v1, d, 3); lemma_encoded_presence(h, v1, d, 4);
+    lemma_encoded_presence(h, v1, d, 5); lemma_encoded_presence(h, v1, d, 6);
+    reveal_with_fuel(hdr_typed_val, 1);
+    assert forall |i: int| 0 <= i < m.len() implies
+        (#[trigger] label_of(m[i].0) == Some(Label::Int(1)) ==> h.alg is Some && h.alg == regp_of::<iana::Algorithm>(m[i].1))
+        && (label_of(m[i].0) == Some(Label::Int(2)) ==> crit_res(h.crit@, m[i].1))
+        && (label_of(m[i].0) == Some(Label::Int(3)) ==> h.content_type is Some && h.content_type == reg_of::<iana::CoapContentFormat>(m[i].1))
+        && (label_of(m[i].0) == Some(Label::Int(4)) ==> m[i].1 == Value::Bytes(h.key_id))
+        && (label_of(m[i].0) == Some(Label::Int(5)) ==> m[i].1 == Value::Bytes(h.iv))
+        && (label_of(m[i].0) == Some(Label::Int(6)) ==> m[i].1 == Value::Bytes(h.partial_iv))
+    by {
+        lemma_encoded_pair(h, v1, d, i);
+        let n: int = match label_of(m[i].0) { Some(Label::Int(x)) => x as int, _ => 0 };
+        if i >= tlen(h) && 1 <= n <= 6 { assert(!is_typed_hdr_label(h.rest@[i - tlen(h)].0)); }
+        if n == 1 { lemma_regp_of_cv::<iana::Algorithm>(m[i].1, h.alg->0); }
+        else if n == 2 {
+            lemma_vv_array_shape(m[i].1, crit_cv(h.crit@)->Array_0);
+            assert forall |j: int| 0 <= j < h.crit@.len() implies reg_of::<iana::HeaderParameter>(#[trigger] arr_of(m[i].1)[j]) == Some(h.crit@[j]) by { lemma_reg_of_cv::<iana::HeaderParameter>(arr_of(m[i].1)[j], h.crit@[j]); }
+        }
+        else if n == 3 { lemma_reg_of_cv::<iana::CoapContentFormat>(m[i].1, h.content_type->0); }
+        else if n == 4 { lemma_vv_bytes(m[i].1, h.key_id@); assert(vv(m[i].1) == vv(Value::Bytes(h.key_id))) by { reveal_with_fuel(vv, 1); } }
+        else if n == 5 { lemma_vv_bytes(m[i].1, h.iv@); assert(vv(m[i].1) == vv(Value::Bytes(h.iv))) by { reveal_with_fuel(vv, 1); } }
+        else if n == 6 { lemma_vv_bytes(m[i].1, h.partial_iv@); assert(vv(m[i].1) == vv(Value::Bytes(h.partial_iv))) by { reveal_with_fuel(vv, 1); } }
+    }
+    assert(m.subrange(0, m.len() as int) =~= m);
+    assert(h.rest@.subrange(0, m.len() - tlen(h)) =~= h.rest@);
+}
+/// C07, any nesting: the re-encoding of a decoded header is accepted at the same depth and decodes to the same header
+pub proof fn lemma_hdr_reenc(v: Value, d: nat, h: Header, v1: Value)
+    requires hdr_ok(v, d), hdr_res(v, d, h), vv(v1) == hdr_cv(h),
+    ensures hdr_ok(v1, d), hdr_res(v1, d, h),
+    decreases max_nest() - d, v, 2nat
+{
+    let m = map_of(v); let m1 = map_of(v1);
+    lemma_decoded_header_mem_ok(v, d, h);
+    lemma_encoded_len(h, v1);
+    lemma_encoded_presence(h, v1, d, 7);
+    assert forall |i: int| 0 <= i < m1.len() implies hdr_pair_ok(#[trigger] m1[i].0, m1[i].1, d) && (label_of(m1[i].0) == Some(Label::Int(7)) ==> csigs_res(m1[i].1, d, h.counter_signatures@)) by {
+        lemma_encoded_pair(h, v1, d, i);
+        if label_of(m1[i].0) == Some(Label::Int(7)) {
+            if i >= tlen(h) { assert(!is_typed_hdr_label(h.rest@[i - tlen(h)].0)); }
+            reveal_with_fuel(hdr_typed_val, 1);
+            assert(vv(m1[i].1) == csigs_cv(h));
+            assert(h.counter_signatures@.len() > 0);
+            assert(has_label(m, m.len() as int, Label::Int(7)));
+            let k = choose |k: int| 0 <= k < m.len() && #[trigger] label_of(m[k].0) == Some(Label::Int(7));
+            assert(hdr_pair_ok(m[k].0, m[k].1, d));
+            lemma_map_elem_decreases(v, k);
+            lemma_csigs_reenc(m[k].1, d, h, m1[i].1);
+        }
+    }
+    lemma_encoded_labels_distinct(h, v1, d);
+    lemma_encoded_presence(h, v1, d, 5); lemma_encoded_presence(h, v1, d, 6);
+    lemma_encoded_flat_ok(h, v1, d);
+}
+proof fn lemma_csigs_reenc(sv: Value, d: nat, h: Header, w: Value)
+    requires csig_ok(sv, d), csigs_res(sv, d, h.counter_signatures@), vv(w) == csigs_cv(h),
+    ensures csig_ok(w, d), csigs_res(w, d, h.counter_signatures@),
+    decreases max_nest() - d, sv, 1nat
+{
+    let sigs = h.counter_signatures@;
+    let a = arr_of(sv);
+    if a[0] is Bytes {
+        lemma_sig_reenc(sv, d, sigs[0], w);
+    } else if sigs.len() == 1 {
+        lemma_arr_elem_decreases(sv, 0);
+        lemma_sig_reenc(a[0], d, sigs[0], w);
+    } else {
+        let cvs = csigs_cv(h)->Array_0;
+        lemma_vv_array_shape(w, cvs);
+        let aw = arr_of(w);
+        assert forall |j: int| 0 <= j < aw.len() implies sig_ok(#[trigger] aw[j], d) && sig_res(aw[j], d, sigs[j]) by {
+            lemma_arr_elem_decreases(sv, j);
+            assert(vv(aw[j]) == cvs[j]);
+            lemma_sig_reenc(a[j], d, sigs[j], aw[j]);
+        }
+        assert(sig_ok(aw[0], d));
+        assert(aw[0] is Array);
+    }
+}
+proof fn lemma_sig_reenc(sv: Value, d: nat, s: CoseSignature, w: Value)
+    requires sig_ok(sv, d), sig_res(sv, d, s), vv(w) == sig_cv(s),
+    ensures sig_ok(w, d), sig_res(w, d, s), arr_of(w)[0] is Bytes,
+    decreases max_nest() - d, sv, 0nat
+{
+    broadcast use axiom_vv_injective;
+    let a = arr_of(sv);
+    lemma_vv_array_shape(w, sig_cv(s)->Array_0);
+    let aw = arr_of(w);
+    let b = s.protected.original_data->0;
+    assert(a[0] == Value::Bytes(b));
+    lemma_vv_bytes(aw[0], b@);
+    assert(vv(aw[0]) == vv(a[0])) by { reveal_with_fuel(vv, 1); }
+    assert(aw[0] == a[0]);
+    lemma_arr_elem_decreases(sv, 1);
+    lemma_hdr_reenc(a[1], d, s.unprotected, aw[1]);
+    lemma_vv_bytes(aw[2], s.signature@);
+    assert(vv(aw[2]) == vv(a[2])) by { reveal_with_fuel(vv, 1); }
+    assert(aw[2] == a[2]);
+}
+/// the decode result is a function of the wire value, at every level
+pub proof fn lemma_hdr_res_deterministic(v: Value, d: nat, h1: Header, h2: Header)
+    requires hdr_res(v, d, h1), hdr_res(v, d, h2),
+    ensures hdr_eqv(h1, h2),
+    decreases max_nest() - d, v, 2nat
+{
+    let m = map_of(v);
+    lemma_hdr_res_deterministic_level(v, d, h1, h2);
+    if has_label(m, m.len() as int, Label::Int(7)) {
+        let k = choose |k: int| 0 <= k < m.len() && #[trigger] label_of(m[k].0) == Some(Label::Int(7));
+        let sv = m[k].1; let a = arr_of(sv);
+        lemma_map_elem_decreases(v, k);
+        assert(csigs_res(sv, d, h1.counter_signatures@) && csigs_res(sv, d, h2.counter_signatures@));
+        assert forall |i: int| 0 <= i < h1.counter_signatures@.len() implies sig_eqv(#[trigger] h1.counter_signatures@[i], h2.counter_signatures@[i]) by {
+            if a[0] is Bytes { lemma_sig_res_deterministic(sv, d, h1.counter_signatures@[0], h2.counter_signatures@[0]); }
+            else { lemma_arr_elem_decreases(sv, i); lemma_sig_res_deterministic(a[i], d, h1.counter_signatures@[i], h2.counter_signatures@[i]); }
+        }
+    }
+}
+proof fn lemma_sig_res_deterministic(sv: Value, d: nat, s1: CoseSignature, s2: CoseSignature)
+    requires sig_res(sv, d, s1), sig_res(sv, d, s2),
+    ensures sig_eqv(s1, s2),
+    decreases max_nest() - d, sv, 1nat
+{
+    let a = arr_of(sv);
+    lemma_arr_elem_decreases(sv, 1);
+    lemma_hdr_res_deterministic(a[1], d, s1.unprotected, s2.unprotected);
+    lemma_prot_res_deterministic(a[0], d, s1.protected, s2.protected);
+}
+pub proof fn lemma_prot_res_deterministic(pv: Value, d: nat, p1: ProtectedHeader, p2: ProtectedHeader)
+    requires prot_res(pv, d, p1), prot_res(pv, d, p2),
+    ensures prot_eqv(p1, p2),
+    decreases max_nest() - d, pv, 0nat
+{
+    let b = bytes_of(pv);
+    if b.len() > 0 {
+        let v2 = crate::common::parse_all(b)->0;
+        lemma_hdr_res_deterministic(v2, d + 1, p1.header, p2.header);
+    } else {
+        let x = p1.header; let y = p2.header;
+        assert(x.crit@ =~= y.crit@); assert(x.key_id@ =~= y.key_id@); assert(x.iv@ =~= y.iv@); assert(x.partial_iv@ =~= y.partial_iv@); assert(x.rest@ =~= y.rest@);
+    }
+}
+/// values equal in that sense encode to the same data-model value (so: to the same bytes)
+pub proof fn lemma_hdr_cv_eqv(a: Header, b: Header)
+    requires hdr_eqv(a, b),
+    ensures hdr_cv(a) == hdr_cv(b),
+    decreases a, 1nat
+{
+    let n = a.counter_signatures@.len();
+    assert forall |i: int| 0 <= i < n implies sig_cv(#[trigger] a.counter_signatures@[i]) == sig_cv(b.counter_signatures@[i]) by {
+        assert(decreases_to!(a => a.counter_signatures));
+        assert(decreases_to!(a.counter_signatures => a.counter_signatures@[i]));
+        lemma_sig_cv_eqv(a.counter_signatures@[i], b.counter_signatures@[i]);
+    }
+    reveal_with_fuel(csigs_cv, 1);
+    if n != 1 { assert(csigs_cv(a)->Array_0 =~= csigs_cv(b)->Array_0); }
+    lemma_hdr_cv_same(a, b);
+}
+pub proof fn lemma_sig_cv_eqv(a: CoseSignature, b: CoseSignature)
+    requires sig_eqv(a, b),
+    ensures sig_cv(a) == sig_cv(b),
+    decreases a, 0nat
+{
+    lemma_hdr_cv_eqv(a.unprotected, b.unprotected);
+    reveal_with_fuel(sig_cv, 1); reveal_with_fuel(prot_slot, 1);
+    assert(sig_cv(a)->Array_0 =~= sig_cv(b)->Array_0);
+}
+/// C07 for header maps, any nesting: decode -> encode -> decode gives an equal header, and encoding it again the same value
+pub proof fn lemma_header_fixed_point(v: Value, d: nat, h: Header, v1: Value, h1: Header)
+    requires hdr_ok(v, d), hdr_res(v, d, h), vv(v1) == hdr_cv(h), hdr_res(v1, d, h1),
+    ensures hdr_encodable(h), hdr_ok(v1, d), hdr_eqv(h1, h), hdr_cv(h1) == hdr_cv(h),
+{
+    lemma_decoded_header_encodable(v, d, h);
+    lemma_hdr_reenc(v, d, h, v1);
+    lemma_hdr_res_deterministic(v1, d, h1, h);
+    lemma_hdr_cv_eqv(h1, h);
 }
 // ---- COSE_Sign1 end to end (headers without counter signatures)
 pub open spec fn prot_no_csig(v: Value) -> bool { bytes_of(v).len() > 0 ==> (crate::common::parse_all(bytes_of(v)) matches Some(v2) && no_csig(v2)) }
@@ -390,6 +602,351 @@ pub proof fn lemma_sign1_fixed_point(v: Value, x: CoseSign1, v1: Value, x1: Cose
     assert(sign1_same(x1, x));
     assert(prot_slot(x1.protected) == prot_slot(x.protected));
     assert(crate::sign::sign1_cv(x1)->Array_0 =~= cv->Array_0);
+}
+// ---- COSE_Mac0 and COSE_Encrypt0 (same argument as COSE_Sign1)
+pub open spec fn mac0_same(a: CoseMac0, b: CoseMac0) -> bool {
+    prot_same(a.protected, b.protected) && hdr_same(a.unprotected, b.unprotected) && opt_same(a.payload, b.payload) && a.tag@ == b.tag@
+}
+proof fn lemma_prot_slot_redecode(v0: Value, p: ProtectedHeader, w0: Value, p1: ProtectedHeader)
+    requires prot_ok(v0, 0), prot_res(v0, 0, p), prot_no_csig(v0), vv(w0) == CV::Bytes(prot_slot(p)), prot_res(w0, 0, p1),
+    ensures w0 == v0, prot_same(p1, p), prot_slot(p1) == prot_slot(p),
+{
+    broadcast use axiom_vv_injective;
+    let orig = p.original_data->0;
+    assert(v0 == Value::Bytes(orig));
+    lemma_vv_bytes(w0, orig@);
+    assert(vv(v0) == vv(w0)) by { reveal_with_fuel(vv, 1); }
+    if orig@.len() > 0 {
+        let v2 = crate::common::parse_all(orig@)->0;
+        lemma_hdr_res_deterministic_flat(v2, 1, p1.header, p.header);
+    } else {
+        assert(p1.header.crit@ =~= p.header.crit@); assert(p1.header.key_id@ =~= p.header.key_id@);
+        assert(p1.header.iv@ =~= p.header.iv@); assert(p1.header.partial_iv@ =~= p.header.partial_iv@); assert(p1.header.rest@ =~= p.header.rest@);
+    }
+}
+proof fn lemma_opt_bytes_redecode(w: Value, pl: Option<Vec<u8>>, pl1: Option<Vec<u8>>)
+    requires vv(w) == opt_bytes_cv(pl), payload_res(w, pl1),
+    ensures is_bytes_or_null(w), opt_same(pl1, pl), opt_bytes_cv(pl1) == opt_bytes_cv(pl),
+{
+    match pl { Some(b) => { lemma_vv_bytes(w, b@); } None => { reveal_with_fuel(vv, 1); assert(w is Null); } }
+}
+pub proof fn lemma_mac0_fixed_point(v: Value, x: CoseMac0, v1: Value, x1: CoseMac0)
+    requires
+        crate::mac::mac0_ok(v), crate::mac::mac0_res(v, x), no_csig(arr_of(v)[1]), prot_no_csig(arr_of(v)[0]),
+        vv(v1) == crate::mac::mac0_cv(x), crate::mac::mac0_res(v1, x1),
+    ensures crate::mac::mac0_encodable(x), crate::mac::mac0_ok(v1), mac0_same(x1, x), crate::mac::mac0_cv(x1) == crate::mac::mac0_cv(x),
+{
+    let a = arr_of(v);
+    let cv = crate::mac::mac0_cv(x);
+    lemma_vv_array_shape(v1, cv->Array_0);
+    let a1 = arr_of(v1);
+    lemma_prot_slot_redecode(a[0], x.protected, a1[0], x1.protected);
+    lemma_header_fixed_point_flat(a[1], 0, x.unprotected, a1[1], x1.unprotected);
+    lemma_opt_bytes_redecode(a1[2], x.payload, x1.payload);
+    lemma_vv_bytes(a1[3], x.tag@);
+    assert(crate::mac::mac0_cv(x1)->Array_0 =~= cv->Array_0);
+}
+pub open spec fn encrypt0_same(a: CoseEncrypt0, b: CoseEncrypt0) -> bool {
+    prot_same(a.protected, b.protected) && hdr_same(a.unprotected, b.unprotected) && opt_same(a.ciphertext, b.ciphertext)
+}
+pub proof fn lemma_encrypt0_fixed_point(v: Value, x: CoseEncrypt0, v1: Value, x1: CoseEncrypt0)
+    requires
+        crate::encrypt::encrypt0_ok(v), crate::encrypt::encrypt0_res(v, x), no_csig(arr_of(v)[1]), prot_no_csig(arr_of(v)[0]),
+        vv(v1) == crate::encrypt::encrypt0_cv(x), crate::encrypt::encrypt0_res(v1, x1),
+    ensures crate::encrypt::encrypt0_encodable(x), crate::encrypt::encrypt0_ok(v1), encrypt0_same(x1, x), crate::encrypt::encrypt0_cv(x1) == crate::encrypt::encrypt0_cv(x),
+{
+    let a = arr_of(v);
+    let cv = crate::encrypt::encrypt0_cv(x);
+    lemma_vv_array_shape(v1, cv->Array_0);
+    let a1 = arr_of(v1);
+    lemma_prot_slot_redecode(a[0], x.protected, a1[0], x1.protected);
+    lemma_header_fixed_point_flat(a[1], 0, x.unprotected, a1[1], x1.unprotected);
+    lemma_opt_bytes_redecode(a1[2], x.ciphertext, x1.ciphertext);
+    assert(crate::encrypt::encrypt0_cv(x1)->Array_0 =~= cv->Array_0);
+}
+// ==== every message type, any nesting: the re-encoding is accepted and decodes to the SAME typed value; decode results
+// are unique up to Vec identity (eqv); eqv values encode identically.  Together: the fixed point of C07.
+proof fn lemma_bytes_slot(bv: Value, b: Vec<u8>, w: Value)
+    requires bv == Value::Bytes(b), vv(w) == CV::Bytes(b@),
+    ensures w == bv,
+{
+    broadcast use axiom_vv_injective;
+    assert(vv(w) == vv(bv)) by { reveal_with_fuel(vv, 1); }
+}
+proof fn lemma_prot_slot_same(pv: Value, d: nat, p: ProtectedHeader, w: Value)
+    requires prot_res(pv, d, p), vv(w) == CV::Bytes(prot_slot(p)),
+    ensures w == pv,
+{ lemma_bytes_slot(pv, p.original_data->0, w); }
+proof fn lemma_payload_slot(pv: Value, pl: Option<Vec<u8>>, w: Value)
+    requires payload_res(pv, pl), vv(w) == opt_bytes_cv(pl),
+    ensures w == pv,
+{
+    broadcast use axiom_vv_injective;
+    assert(vv(w) == vv(pv)) by { reveal_with_fuel(vv, 1); }
+}
+pub open spec fn sign1_eqv(a: CoseSign1, b: CoseSign1) -> bool {
+    prot_eqv(a.protected, b.protected) && hdr_eqv(a.unprotected, b.unprotected) && opt_same(a.payload, b.payload) && a.signature@ == b.signature@
+}
+pub open spec fn mac0_eqv(a: CoseMac0, b: CoseMac0) -> bool {
+    prot_eqv(a.protected, b.protected) && hdr_eqv(a.unprotected, b.unprotected) && opt_same(a.payload, b.payload) && a.tag@ == b.tag@
+}
+pub open spec fn encrypt0_eqv(a: CoseEncrypt0, b: CoseEncrypt0) -> bool {
+    prot_eqv(a.protected, b.protected) && hdr_eqv(a.unprotected, b.unprotected) && opt_same(a.ciphertext, b.ciphertext)
+}
+pub open spec fn sigs_eqv(a: Seq<CoseSignature>, b: Seq<CoseSignature>) -> bool {
+    a.len() == b.len() && forall |j: int| 0 <= j < a.len() ==> sig_eqv(#[trigger] a[j], b[j])
+}
+pub open spec fn sign_eqv(a: CoseSign, b: CoseSign) -> bool {
+    prot_eqv(a.protected, b.protected) && hdr_eqv(a.unprotected, b.unprotected) && opt_same(a.payload, b.payload) && sigs_eqv(a.signatures@, b.signatures@)
+}
+pub open spec fn recipient_eqv(a: CoseRecipient, b: CoseRecipient) -> bool
+    decreases a, 1nat
+{
+    prot_eqv(a.protected, b.protected) && hdr_eqv(a.unprotected, b.unprotected) && opt_same(a.ciphertext, b.ciphertext)
+    && a.recipients@.len() == b.recipients@.len() && forall |j: int| 0 <= j < a.recipients@.len() ==> recipient_eqv(#[trigger] a.recipients@[j], b.recipients@[j])
+}
+pub open spec fn recipients_eqv(a: Seq<CoseRecipient>, b: Seq<CoseRecipient>) -> bool {
+    a.len() == b.len() && forall |j: int| 0 <= j < a.len() ==> recipient_eqv(#[trigger] a[j], b[j])
+}
+pub open spec fn encrypt_eqv(a: CoseEncrypt, b: CoseEncrypt) -> bool {
+    prot_eqv(a.protected, b.protected) && hdr_eqv(a.unprotected, b.unprotected) && opt_same(a.ciphertext, b.ciphertext) && recipients_eqv(a.recipients@, b.recipients@)
+}
+pub open spec fn mac_eqv(a: CoseMac, b: CoseMac) -> bool {
+    prot_eqv(a.protected, b.protected) && hdr_eqv(a.unprotected, b.unprotected) && opt_same(a.payload, b.payload) && a.tag@ == b.tag@ && recipients_eqv(a.recipients@, b.recipients@)
+}
+pub proof fn lemma_prot_slot_eqv(a: ProtectedHeader, b: ProtectedHeader)
+    requires prot_eqv(a, b),
+    ensures prot_slot(a) == prot_slot(b),
+{ reveal_with_fuel(prot_slot, 1); }
+// ---- COSE_Sign1
+pub proof fn lemma_sign1_fixed_point_nested(v: Value, x: CoseSign1, v1: Value, x1: CoseSign1)
+    requires crate::sign::sign1_ok(v), crate::sign::sign1_res(v, x), vv(v1) == crate::sign::sign1_cv(x), crate::sign::sign1_res(v1, x1),
+    ensures crate::sign::sign1_encodable(x), crate::sign::sign1_ok(v1), crate::sign::sign1_res(v1, x), sign1_eqv(x1, x), crate::sign::sign1_cv(x1) == crate::sign::sign1_cv(x),
+{
+    let a = arr_of(v);
+    lemma_vv_array_shape(v1, crate::sign::sign1_cv(x)->Array_0);
+    let a1 = arr_of(v1);
+    lemma_prot_slot_same(a[0], 0, x.protected, a1[0]);
+    lemma_decoded_header_encodable(a[1], 0, x.unprotected);
+    lemma_hdr_reenc(a[1], 0, x.unprotected, a1[1]);
+    lemma_payload_slot(a[2], x.payload, a1[2]);
+    lemma_bytes_slot(a[3], x.signature, a1[3]);
+    lemma_prot_res_deterministic(a1[0], 0, x1.protected, x.protected);
+    lemma_hdr_res_deterministic(a1[1], 0, x1.unprotected, x.unprotected);
+    lemma_prot_slot_eqv(x1.protected, x.protected);
+    lemma_hdr_cv_eqv(x1.unprotected, x.unprotected);
+    assert(crate::sign::sign1_cv(x1)->Array_0 =~= crate::sign::sign1_cv(x)->Array_0);
+}
+// ---- COSE_Mac0
+pub proof fn lemma_mac0_fixed_point_nested(v: Value, x: CoseMac0, v1: Value, x1: CoseMac0)
+    requires crate::mac::mac0_ok(v), crate::mac::mac0_res(v, x), vv(v1) == crate::mac::mac0_cv(x), crate::mac::mac0_res(v1, x1),
+    ensures crate::mac::mac0_encodable(x), crate::mac::mac0_ok(v1), crate::mac::mac0_res(v1, x), mac0_eqv(x1, x), crate::mac::mac0_cv(x1) == crate::mac::mac0_cv(x),
+{
+    let a = arr_of(v);
+    lemma_vv_array_shape(v1, crate::mac::mac0_cv(x)->Array_0);
+    let a1 = arr_of(v1);
+    lemma_prot_slot_same(a[0], 0, x.protected, a1[0]);
+    lemma_decoded_header_encodable(a[1], 0, x.unprotected);
+    lemma_hdr_reenc(a[1], 0, x.unprotected, a1[1]);
+    lemma_payload_slot(a[2], x.payload, a1[2]);
+    lemma_bytes_slot(a[3], x.tag, a1[3]);
+    lemma_prot_res_deterministic(a1[0], 0, x1.protected, x.protected);
+    lemma_hdr_res_deterministic(a1[1], 0, x1.unprotected, x.unprotected);
+    lemma_prot_slot_eqv(x1.protected, x.protected);
+    lemma_hdr_cv_eqv(x1.unprotected, x.unprotected);
+    assert(crate::mac::mac0_cv(x1)->Array_0 =~= crate::mac::mac0_cv(x)->Array_0);
+}
+// ---- COSE_Encrypt0
+pub proof fn lemma_encrypt0_fixed_point_nested(v: Value, x: CoseEncrypt0, v1: Value, x1: CoseEncrypt0)
+    requires crate::encrypt::encrypt0_ok(v), crate::encrypt::encrypt0_res(v, x), vv(v1) == crate::encrypt::encrypt0_cv(x), crate::encrypt::encrypt0_res(v1, x1),
+    ensures crate::encrypt::encrypt0_encodable(x), crate::encrypt::encrypt0_ok(v1), crate::encrypt::encrypt0_res(v1, x), encrypt0_eqv(x1, x), crate::encrypt::encrypt0_cv(x1) == crate::encrypt::encrypt0_cv(x),
+{
+    let a = arr_of(v);
+    lemma_vv_array_shape(v1, crate::encrypt::encrypt0_cv(x)->Array_0);
+    let a1 = arr_of(v1);
+    lemma_prot_slot_same(a[0], 0, x.protected, a1[0]);
+    lemma_decoded_header_encodable(a[1], 0, x.unprotected);
+    lemma_hdr_reenc(a[1], 0, x.unprotected, a1[1]);
+    lemma_payload_slot(a[2], x.ciphertext, a1[2]);
+    lemma_prot_res_deterministic(a1[0], 0, x1.protected, x.protected);
+    lemma_hdr_res_deterministic(a1[1], 0, x1.unprotected, x.unprotected);
+    lemma_prot_slot_eqv(x1.protected, x.protected);
+    lemma_hdr_cv_eqv(x1.unprotected, x.unprotected);
+    assert(crate::encrypt::encrypt0_cv(x1)->Array_0 =~= crate::encrypt::encrypt0_cv(x)->Array_0);
+}
+// ---- COSE_Signature (stand-alone) and COSE_Sign
+pub proof fn lemma_signature_fixed_point(v: Value, x: CoseSignature, v1: Value, x1: CoseSignature)
+    requires sig_ok(v, 0), sig_res(v, 0, x), vv(v1) == sig_cv(x), sig_res(v1, 0, x1),
+    ensures sig_encodable(x), sig_ok(v1, 0), sig_res(v1, 0, x), sig_eqv(x1, x), sig_cv(x1) == sig_cv(x),
+{
+    lemma_decoded_sig_encodable(v, 0, x);
+    lemma_sig_reenc(v, 0, x, v1);
+    lemma_sig_res_deterministic(v1, 0, x1, x);
+    lemma_sig_cv_eqv(x1, x);
+}
+proof fn lemma_sigs_reenc(sv: Value, s: Seq<CoseSignature>, w: Value)
+    requires crate::sign::sigs_ok(sv), crate::sign::sigs_res(sv, s), vv(w) == crate::sign::sigs_cv(s),
+    ensures crate::sign::sigs_ok(w), crate::sign::sigs_res(w, s),
+{
+    lemma_vv_array_shape(w, crate::sign::sigs_cv(s)->Array_0);
+    assert forall |j: int| 0 <= j < s.len() implies sig_ok(#[trigger] arr_of(w)[j], 0) && sig_res(arr_of(w)[j], 0, s[j]) by {
+        lemma_sig_reenc(arr_of(sv)[j], 0, s[j], arr_of(w)[j]);
+    }
+}
+proof fn lemma_sigs_det(sv: Value, s1: Seq<CoseSignature>, s2: Seq<CoseSignature>)
+    requires crate::sign::sigs_res(sv, s1), crate::sign::sigs_res(sv, s2),
+    ensures sigs_eqv(s1, s2), crate::sign::sigs_cv(s1) == crate::sign::sigs_cv(s2),
+{
+    assert forall |j: int| 0 <= j < s1.len() implies sig_eqv(#[trigger] s1[j], s2[j]) && sig_cv(s1[j]) == sig_cv(s2[j]) by {
+        lemma_sig_res_deterministic(arr_of(sv)[j], 0, s1[j], s2[j]);
+        lemma_sig_cv_eqv(s1[j], s2[j]);
+    }
+    assert(crate::sign::sigs_cv(s1)->Array_0 =~= crate::sign::sigs_cv(s2)->Array_0);
+}
+pub proof fn lemma_sign_fixed_point(v: Value, x: CoseSign, v1: Value, x1: CoseSign)
+    requires crate::sign::sign_ok(v), crate::sign::sign_res(v, x), vv(v1) == crate::sign::sign_cv(x), crate::sign::sign_res(v1, x1),
+    ensures crate::sign::sign_encodable(x), crate::sign::sign_ok(v1), crate::sign::sign_res(v1, x), sign_eqv(x1, x), crate::sign::sign_cv(x1) == crate::sign::sign_cv(x),
+{
+    let a = arr_of(v);
+    crate::vlemmas::lemma_decoded_messages_encodable(v);
+    lemma_vv_array_shape(v1, crate::sign::sign_cv(x)->Array_0);
+    let a1 = arr_of(v1);
+    lemma_prot_slot_same(a[0], 0, x.protected, a1[0]);
+    lemma_hdr_reenc(a[1], 0, x.unprotected, a1[1]);
+    lemma_payload_slot(a[2], x.payload, a1[2]);
+    lemma_sigs_reenc(a[3], x.signatures@, a1[3]);
+    lemma_prot_res_deterministic(a1[0], 0, x1.protected, x.protected);
+    lemma_hdr_res_deterministic(a1[1], 0, x1.unprotected, x.unprotected);
+    lemma_sigs_det(a1[3], x1.signatures@, x.signatures@);
+    lemma_prot_slot_eqv(x1.protected, x.protected);
+    lemma_hdr_cv_eqv(x1.unprotected, x.unprotected);
+    assert(crate::sign::sign_cv(x1)->Array_0 =~= crate::sign::sign_cv(x)->Array_0);
+}
+// ---- COSE_recipient (recursive), COSE_Encrypt, COSE_Mac
+use crate::encrypt::{recipient_ok, recipient_res, recipient_cv, recipients_ok, recipients_res, recipients_cv};
+proof fn lemma_recipient_reenc(v: Value, x: CoseRecipient, w: Value)
+    requires recipient_ok(v), recipient_res(v, x), vv(w) == recipient_cv(x),
+    ensures recipient_ok(w), recipient_res(w, x),
+    decreases v, 1nat
+{
+    let a = arr_of(v);
+    reveal_with_fuel(recipient_cv, 1);
+    lemma_vv_array_shape(w, recipient_cv(x)->Array_0);
+    let aw = arr_of(w);
+    lemma_prot_slot_same(a[0], 0, x.protected, aw[0]);
+    lemma_hdr_reenc(a[1], 0, x.unprotected, aw[1]);
+    lemma_payload_slot(a[2], x.ciphertext, aw[2]);
+    if x.recipients@.len() > 0 {
+        lemma_arr_elem_decreases(v, 3);
+        lemma_recipients_reenc(a[3], x.recipients@, aw[3]);
+    }
+}
+proof fn lemma_recipients_reenc(v: Value, s: Seq<CoseRecipient>, w: Value)
+    requires recipients_ok(v), recipients_res(v, s), vv(w) == recipients_cv(s),
+    ensures recipients_ok(w), recipients_res(w, s),
+    decreases v, 0nat
+{
+    reveal_with_fuel(recipients_cv, 1);
+    lemma_vv_array_shape(w, recipients_cv(s)->Array_0);
+    assert forall |j: int| 0 <= j < s.len() implies recipient_ok(#[trigger] arr_of(w)[j]) && recipient_res(arr_of(w)[j], s[j]) by {
+        lemma_arr_elem_decreases(v, j);
+        lemma_recipient_reenc(arr_of(v)[j], s[j], arr_of(w)[j]);
+    }
+}
+proof fn lemma_recipient_det(v: Value, x1: CoseRecipient, x2: CoseRecipient)
+    requires recipient_res(v, x1), recipient_res(v, x2),
+    ensures recipient_eqv(x1, x2),
+    decreases v, 1nat
+{
+    let a = arr_of(v);
+    lemma_prot_res_deterministic(a[0], 0, x1.protected, x2.protected);
+    lemma_hdr_res_deterministic(a[1], 0, x1.unprotected, x2.unprotected);
+    if a.len() == 4 { lemma_arr_elem_decreases(v, 3); lemma_recipients_det(a[3], x1.recipients@, x2.recipients@); }
+}
+proof fn lemma_recipients_det(v: Value, s1: Seq<CoseRecipient>, s2: Seq<CoseRecipient>)
+    requires recipients_res(v, s1), recipients_res(v, s2),
+    ensures recipients_eqv(s1, s2),
+    decreases v, 0nat
+{
+    assert forall |j: int| 0 <= j < s1.len() implies recipient_eqv(#[trigger] s1[j], s2[j]) by {
+        lemma_arr_elem_decreases(v, j);
+        lemma_recipient_det(arr_of(v)[j], s1[j], s2[j]);
+    }
+}
+proof fn lemma_recipient_cv_eqv(a: CoseRecipient, b: CoseRecipient)
+    requires recipient_eqv(a, b),
+    ensures recipient_cv(a) == recipient_cv(b),
+    decreases a, 1nat
+{
+    reveal_with_fuel(recipient_cv, 1);
+    lemma_prot_slot_eqv(a.protected, b.protected);
+    lemma_hdr_cv_eqv(a.unprotected, b.unprotected);
+    assert forall |j: int| 0 <= j < a.recipients@.len() implies recipient_cv(#[trigger] a.recipients@[j]) == recipient_cv(b.recipients@[j]) by {
+        assert(decreases_to!(a => a.recipients));
+        assert(decreases_to!(a.recipients => a.recipients@[j]));
+        lemma_recipient_cv_eqv(a.recipients@[j], b.recipients@[j]);
+    }
+    reveal_with_fuel(recipients_cv, 1);
+    assert(recipients_cv(a.recipients@)->Array_0 =~= recipients_cv(b.recipients@)->Array_0);
+    assert(recipient_cv(a)->Array_0 =~= recipient_cv(b)->Array_0);
+}
+proof fn lemma_recipients_cv_eqv(a: Seq<CoseRecipient>, b: Seq<CoseRecipient>)
+    requires recipients_eqv(a, b),
+    ensures recipients_cv(a) == recipients_cv(b),
+{
+    reveal_with_fuel(recipients_cv, 1);
+    assert forall |j: int| 0 <= j < a.len() implies recipient_cv(#[trigger] a[j]) == recipient_cv(b[j]) by { lemma_recipient_cv_eqv(a[j], b[j]); }
+    assert(recipients_cv(a)->Array_0 =~= recipients_cv(b)->Array_0);
+}
+pub proof fn lemma_recipient_fixed_point(v: Value, x: CoseRecipient, v1: Value, x1: CoseRecipient)
+    requires recipient_ok(v), recipient_res(v, x), vv(v1) == recipient_cv(x), recipient_res(v1, x1),
+    ensures crate::encrypt::recipient_encodable(x), recipient_ok(v1), recipient_res(v1, x), recipient_eqv(x1, x), recipient_cv(x1) == recipient_cv(x),
+{
+    crate::vlemmas::lemma_decoded_recipient_encodable(v, x);
+    lemma_recipient_reenc(v, x, v1);
+    lemma_recipient_det(v1, x1, x);
+    lemma_recipient_cv_eqv(x1, x);
+}
+pub proof fn lemma_encrypt_fixed_point(v: Value, x: CoseEncrypt, v1: Value, x1: CoseEncrypt)
+    requires crate::encrypt::encrypt_ok(v), crate::encrypt::encrypt_res(v, x), vv(v1) == crate::encrypt::encrypt_cv(x), crate::encrypt::encrypt_res(v1, x1),
+    ensures crate::encrypt::encrypt_encodable(x), crate::encrypt::encrypt_ok(v1), crate::encrypt::encrypt_res(v1, x), encrypt_eqv(x1, x), crate::encrypt::encrypt_cv(x1) == crate::encrypt::encrypt_cv(x),
+{
+    let a = arr_of(v);
+    crate::vlemmas::lemma_decoded_messages_encodable(v);
+    lemma_vv_array_shape(v1, crate::encrypt::encrypt_cv(x)->Array_0);
+    let a1 = arr_of(v1);
+    lemma_prot_slot_same(a[0], 0, x.protected, a1[0]);
+    lemma_hdr_reenc(a[1], 0, x.unprotected, a1[1]);
+    lemma_payload_slot(a[2], x.ciphertext, a1[2]);
+    lemma_recipients_reenc(a[3], x.recipients@, a1[3]);
+    lemma_prot_res_deterministic(a1[0], 0, x1.protected, x.protected);
+    lemma_hdr_res_deterministic(a1[1], 0, x1.unprotected, x.unprotected);
+    lemma_recipients_det(a1[3], x1.recipients@, x.recipients@);
+    lemma_prot_slot_eqv(x1.protected, x.protected);
+    lemma_hdr_cv_eqv(x1.unprotected, x.unprotected);
+    lemma_recipients_cv_eqv(x1.recipients@, x.recipients@);
+    assert(crate::encrypt::encrypt_cv(x1)->Array_0 =~= crate::encrypt::encrypt_cv(x)->Array_0);
+}
+pub proof fn lemma_mac_fixed_point(v: Value, x: CoseMac, v1: Value, x1: CoseMac)
+    requires crate::mac::mac_ok(v), crate::mac::mac_res(v, x), vv(v1) == crate::mac::mac_cv(x), crate::mac::mac_res(v1, x1),
+    ensures crate::mac::mac_encodable(x), crate::mac::mac_ok(v1), crate::mac::mac_res(v1, x), mac_eqv(x1, x), crate::mac::mac_cv(x1) == crate::mac::mac_cv(x),
+{
+    let a = arr_of(v);
+    crate::vlemmas::lemma_decoded_messages_encodable(v);
+    lemma_vv_array_shape(v1, crate::mac::mac_cv(x)->Array_0);
+    let a1 = arr_of(v1);
+    lemma_prot_slot_same(a[0], 0, x.protected, a1[0]);
+    lemma_hdr_reenc(a[1], 0, x.unprotected, a1[1]);
+    lemma_payload_slot(a[2], x.payload, a1[2]);
+    lemma_bytes_slot(a[3], x.tag, a1[3]);
+    lemma_recipients_reenc(a[4], x.recipients@, a1[4]);
+    lemma_prot_res_deterministic(a1[0], 0, x1.protected, x.protected);
+    lemma_hdr_res_deterministic(a1[1], 0, x1.unprotected, x.unprotected);
+    lemma_recipients_det(a1[4], x1.recipients@, x.recipients@);
+    lemma_prot_slot_eqv(x1.protected, x.protected);
+    lemma_hdr_cv_eqv(x1.unprotected, x.unprotected);
+    lemma_recipients_cv_eqv(x1.recipients@, x.recipients@);
+    assert(crate::mac::mac_cv(x1)->Array_0 =~= crate::mac::mac_cv(x)->Array_0);
 }
 }
 }
